@@ -31,3 +31,35 @@ Theorem C06_rswide : forall bs, len bs < 2 ^ 43 ->
     (forall k p, select0_spec bs k = Some p -> rsw_select_unchecked false r k = Val p).
 Proof. exact (rsw_of_bools_correct select_in_word_correct popcount_correct). Qed.
 Print Assumptions C06_rswide.
+
+From QwtModel Require Import LeavesRSN LeavesRSNOk LeavesRSW LeavesRSWOk.
+
+(* ---- T3: the directory readers of RSNarrow / RSWide REGENERATED from src/bitvector/rs_narrow.rs and
+   src/bitvector/rs_wide.rs on every run (tools/gen_leaves.py -> Gen/LeavesRSN.v, Gen/LeavesRSW.v: typed,
+   operation-by-operation translation of the Rust text, each used field of self a parameter) are equal to
+   the hand model on every argument of the parameter type, for directories whose entries fit their
+   element type (u64 / u128).  The hand model of the three RSNarrow readers was made to carry the usize
+   overflow checks of the source for this (block * 2, block * 2 + 1, result += ..). *)
+Theorem C06_source_rsn_block_rank : forall r block, block < 2 ^ 64 ->
+  g_rsn_block_rank (rsn_pairs r) block = rsn_block_rank r block.
+Proof. exact g_rsn_block_rank_ok. Qed.
+Print Assumptions C06_source_rsn_block_rank.
+Theorem C06_source_rsn_sub_block_ranks : forall r block, block < 2 ^ 64 ->
+  g_rsn_sub_block_ranks (rsn_pairs r) block = rsn_sub_block_ranks r block.
+Proof. exact g_rsn_sub_block_ranks_ok. Qed.
+Print Assumptions C06_source_rsn_sub_block_ranks.
+Theorem C06_source_rsn_sub_block_rank : forall r sub_block,
+  Forall (fun w => w < 2 ^ 64) (rsn_pairs r) -> sub_block < 2 ^ 64 ->
+  g_rsn_sub_block_rank (rsn_pairs r) sub_block = rsn_sub_block_rank r sub_block.
+Proof. exact g_rsn_sub_block_rank_ok. Qed.
+Print Assumptions C06_source_rsn_sub_block_rank.
+Theorem C06_source_rsw_superblock_rank : forall r block,
+  Forall (fun w => w < 2 ^ 128) (rsw_meta r) -> block < 2 ^ 64 ->
+  g_rsw_superblock_rank (rsw_meta r) block = rsw_superblock_rank r block.
+Proof. exact g_rsw_superblock_rank_ok. Qed.
+Print Assumptions C06_source_rsw_superblock_rank.
+Theorem C06_source_rsw_sub_block_rank : forall r sub_block,
+  Forall (fun w => w < 2 ^ 128) (rsw_meta r) -> sub_block < 2 ^ 64 ->
+  g_rsw_sub_block_rank (rsw_meta r) sub_block = rsw_sub_block_rank r sub_block.
+Proof. exact g_rsw_sub_block_rank_ok. Qed.
+Print Assumptions C06_source_rsw_sub_block_rank.
